@@ -163,19 +163,19 @@ theorem step_ok {s s' : St} (g : Good s) {op : Op} (e : step s op = some s') : S
     simp only [step] at e
     split at e
     · rename_i c; have V := valid_facts c
-      exact ok_unspec (eff_mapChars h V.1 e) rfl
+      exact ok_of (eff_mapChars h V.1 e) (by intro x hx; simp only [Spec.newVal, Option.some.injEq] at hx; exact hx)
     · cases e
   | lower v =>
     simp only [step] at e
     split at e
     · rename_i c; have V := valid_facts c
-      exact ok_unspec (eff_mapChars h V.1 e) rfl
+      exact ok_of (eff_mapChars h V.1 e) (by intro x hx; simp only [Spec.newVal, Option.some.injEq] at hx; exact hx)
     · cases e
   | upper v =>
     simp only [step] at e
     split at e
     · rename_i c; have V := valid_facts c
-      exact ok_unspec (eff_mapChars h V.1 e) rfl
+      exact ok_of (eff_mapChars h V.1 e) (by intro x hx; simp only [Spec.newVal, Option.some.injEq] at hx; exact hx)
     · cases e
   | substr v w st ln =>
     simp only [step] at e
@@ -188,7 +188,11 @@ theorem step_ok {s s' : St} (g : Good s) {op : Op} (e : step s op = some s') : S
     simp only [step] at e
     split at e
     · rename_i c; have V := valid_facts c
-      exact ok_unspec (eff_trim h V.1 V.2.2.2.2.1 V.2.1 (T _ (Nat.le_refl _)) e) rfl
+      obtain ⟨c', hc', E⟩ := eff_trim h V.1 V.2.2.2.2.1 V.2.1 (T _ (Nat.le_refl _)) e
+      exact ok_of E (by
+        intro x hx
+        simp only [Spec.newVal, Op.target, hc', Option.map_some, Option.some.injEq] at hx
+        exact hx)
     · cases e
   | tokenC v w sep st =>
     simp only [step] at e
@@ -196,7 +200,43 @@ theorem step_ok {s s' : St} (g : Good s) {op : Op} (e : step s op = some s') : S
     · rename_i c; have V := valid_facts c.1; have Vw := valid_facts c.2
       simp only [Option.map_eq_some_iff] at e
       obtain ⟨⟨s2, r⟩, e, rfl⟩ := e
-      exact ok_unspec (eff_tokenC h V.1 Vw.1 V.2.2.2.2.1 V.2.1 (T _ (Nat.le_refl _)) e) rfl
+      cases hc : allSome (absVar s w) with
+      | none =>
+        -- outside the specification; the call is still confined to its target
+        simp only [tokenC, Option.bind_eq_bind, Option.bind_eq_some_iff] at e
+        obtain ⟨⟨s1, f⟩, h1, d, hd, e⟩ := e
+        have S := silent_findCFrom h Vw.1 h1
+        have e2 : ∃ src, assignTemp s1 v src (userVars s) = some s2 := by
+          cases f with
+          | none =>
+            simp only [Option.bind_eq_some_iff, Option.pure_def, Option.some.injEq, Prod.mk.injEq] at e
+            obtain ⟨src, _, s3, h3, rfl, _⟩ := e; exact ⟨src, h3⟩
+          | some f =>
+            simp only [Option.bind_eq_some_iff, Option.pure_def, Option.some.injEq, Prod.mk.injEq] at e
+            obtain ⟨src, _, s3, h3, rfl, _⟩ := e; exact ⟨src, h3⟩
+        obtain ⟨src, e2⟩ := e2
+        exact ok_unspec ⟨_, S.andThen (eff_assignTemp S.inv (by rw [S.n]; exact V.1) (by rw [S.n]; exact V.2.2.2.2.1) V.2.1
+          (by rw [S.abs]; exact T _ (Nat.le_refl _)) e2)⟩ (by simp [Spec.newVal, hc])
+      | some cc =>
+        by_cases hz : 0 ∉ cc
+        · exact ok_of (eff_tokenC h V.1 Vw.1 V.2.2.2.2.1 V.2.1 (T _ (Nat.le_refl _)) hc hz e) (by
+            intro x hx
+            simp only [Spec.newVal, hc, Option.bind_some, hz, not_false_eq_true, if_true, Option.some.injEq] at hx
+            exact hx)
+        · simp only [tokenC, Option.bind_eq_bind, Option.bind_eq_some_iff] at e
+          obtain ⟨⟨s1, f⟩, h1, d, hd, e⟩ := e
+          have S := silent_findCFrom h Vw.1 h1
+          have e2 : ∃ src, assignTemp s1 v src (userVars s) = some s2 := by
+            cases f with
+            | none =>
+              simp only [Option.bind_eq_some_iff, Option.pure_def, Option.some.injEq, Prod.mk.injEq] at e
+              obtain ⟨src, _, s3, h3, rfl, _⟩ := e; exact ⟨src, h3⟩
+            | some f =>
+              simp only [Option.bind_eq_some_iff, Option.pure_def, Option.some.injEq, Prod.mk.injEq] at e
+              obtain ⟨src, _, s3, h3, rfl, _⟩ := e; exact ⟨src, h3⟩
+          obtain ⟨src, e2⟩ := e2
+          exact ok_unspec ⟨_, S.andThen (eff_assignTemp S.inv (by rw [S.n]; exact V.1) (by rw [S.n]; exact V.2.2.2.2.1) V.2.1
+            (by rw [S.abs]; exact T _ (Nat.le_refl _)) e2)⟩ (by simp [Spec.newVal, hc, hz])
     · cases e
   | tokenS v w seps st =>
     simp only [step] at e
@@ -204,7 +244,31 @@ theorem step_ok {s s' : St} (g : Good s) {op : Op} (e : step s op = some s') : S
     · rename_i c; have V := valid_facts c.1; have Vw := valid_facts c.2
       simp only [Option.map_eq_some_iff] at e
       obtain ⟨⟨s2, r⟩, e, rfl⟩ := e
-      exact ok_unspec (eff_tokenS h V.1 Vw.1 V.2.2.2.2.1 V.2.1 (T _ (Nat.le_refl _)) e) rfl
+      have generic : ∃ val, Eff s s2 v val := by
+        simp only [tokenS, Option.bind_eq_bind, Option.bind_eq_some_iff] at e
+        obtain ⟨s1, h1, hh, _, d, hd, e⟩ := e
+        have S := silent_cview h Vw.1 h1
+        have e2 : ∃ src, assignTemp s1 v src (userVars s) = some s2 := by
+          cases hf : strpbrkL hh seps with
+          | none =>
+            simp only [hf, Option.bind_eq_some_iff, Option.pure_def, Option.some.injEq, Prod.mk.injEq] at e
+            obtain ⟨src, _, s3, h3, rfl, _⟩ := e; exact ⟨src, h3⟩
+          | some f =>
+            simp only [hf, Option.bind_eq_some_iff, Option.pure_def, Option.some.injEq, Prod.mk.injEq] at e
+            obtain ⟨src, _, s3, h3, rfl, _⟩ := e; exact ⟨src, h3⟩
+        obtain ⟨src, e2⟩ := e2
+        exact ⟨_, S.andThen (eff_assignTemp S.inv (by rw [S.n]; exact V.1) (by rw [S.n]; exact V.2.2.2.2.1) V.2.1
+          (by rw [S.abs]; exact T _ (Nat.le_refl _)) e2)⟩
+      cases hc : allSome (absVar s w) with
+      | none => exact ok_unspec generic (by simp [Spec.newVal, hc])
+      | some cc =>
+        by_cases hz : 0 ∉ cc ∧ st ≤ cc.length
+        · exact ok_of (eff_tokenS h V.1 Vw.1 V.2.2.2.2.1 V.2.1 (T _ (Nat.le_refl _)) hc hz.1 hz.2 e) (by
+            intro x hx
+            simp only [Spec.newVal, hc, Option.bind_some, hz, not_false_eq_true, and_self, if_true,
+              Option.some.injEq] at hx
+            exact hx)
+        · exact ok_unspec generic (by simp only [Spec.newVal, hc, Option.bind_some, hz, if_false])
     · cases e
   | join v toks sep =>
     simp only [step] at e
